@@ -311,17 +311,21 @@ impl Prop for C18 {
     let ev = |e: &Env, o: &mut Out, s: &str, cs: &Case| self.eval(e, o, s, cs);
     match t {
       "cells" => {
+        let mut rev = Reverse::new(1);
         for mb in 0..12i64 {
           if mb as usize % nshards != shard {
             continue;
           }
           for dp in 0..60 {
             run_case(env, out, "day_cell", &Case::ints(&[mb, dp]), &ev);
+            rev.note("day_cell", &Case::ints(&[mb, dp]));
           }
           for dp in 0..60 {
             run_case(env, out, "hour_cell", &Case::ints(&[dp, mb]), &ev);
+            rev.note("hour_cell", &Case::ints(&[dp, mb]));
           }
         }
+        rev.run(env, out, &ev);
         if shard == 0 {
           for g in 0..GOD_NAMES.len() as i64 {
             run_case(env, out, "god", &Case::ints(&[g]), &ev);
